@@ -522,6 +522,9 @@ class CFile:
         self._f.close()
         return False
 
+    def __iter__(self):
+        return iter(self._f)
+
     def __getattr__(self, name):
         return getattr(self._f, name)
 
